@@ -98,7 +98,7 @@ class Graph:
             pay['Map'] = (Agg(T + 'map_type::MapType', (box(st, ref('k')), box(st, ref('v')))),)
             disc = z3.If(ty == TY_MAP, bv(td.index['Map']), disc)
         if TY_EXT in self.tys:
-            pay['External'] = (Agg(T + 'external_reference::ExternalReference', (box(st, self.type_name(bv(0))), box(st, string))),)
+            pay['External'] = (Agg(T + 'external_reference::ExternalReference', (box(st, self.type_name(bv(0))), box(st, it.mk_enum(td, 'Reference', self.type_name(tgt))))),)     # fallback: the named type tgt (may well be safe)
             disc = z3.If(ty == TY_EXT, bv(td.index['External']), disc)
         return it.sym_enum(td, disc, pay)
 
@@ -243,7 +243,7 @@ def ir_type_flat(ty, tgt):
         return {'type': 'set', 'set': {'itemType': ref}}
     if ty == TY_MAP:
         return {'type': 'map', 'map': {'keyType': ref, 'valueType': ref}}
-    return {'type': 'external', 'external': {'externalReference': {'name': 'Ext', 'package': 'com.x'}, 'fallback': {'type': 'primitive', 'primitive': 'STRING'}}}
+    return {'type': 'external', 'external': {'externalReference': {'name': 'Ext', 'package': 'com.x'}, 'fallback': ref}}
 
 
 def ir_json(g, calls):
